@@ -37,6 +37,9 @@ pub struct Scenario {
     pub followup: bool,
     pub adopt: bool,
     pub raw_depfile: BTreeMap<String, String>,
+    /// How the manifest is named on the command line (-f), when not by its
+    /// canonical name.
+    pub f_spelling: Option<String>,
     pub note: String,
 }
 
@@ -58,6 +61,7 @@ impl Scenario {
             followup: false,
             adopt: false,
             raw_depfile: BTreeMap::new(),
+            f_spelling: None,
             note: String::new(),
         }
     }
@@ -252,6 +256,60 @@ pub fn family_px() -> Vec<Scenario> {
                             let mut s = Scenario::new(p);
                             s.j = j;
                             s.note = format!("PX depth={} pooled={} plain={} j={} order={} tail={}", depth, pooled, plain, j, order, tail);
+                            out.push(s);
+                        }
+                    }
+                }
+            }
+        }
+    }
+    out
+}
+
+/// PV: steps of a bounded pool that have validation edges to default-pool
+/// steps which may fail while the pooled steps are running or queued.
+pub fn family_pv() -> Vec<Scenario> {
+    let mut out = Vec::new();
+    let mk = |name: &str, pool: bool, ins: Vec<(EdgeKind, String)>| Step {
+        outs: vec![name.to_string()],
+        cmdline: name.to_uppercase(),
+        ins: {
+            let mut v = vec![(EdgeKind::Explicit, format!("src_{}", name))];
+            v.extend(ins);
+            v
+        },
+        pool: if pool { Some("bounded".to_string()) } else { None },
+        ..Default::default()
+    };
+    for depth in [1usize, 2] {
+        for pooled in [depth + 1, depth + 2] {
+            for validated in 0..2usize {
+                for fail_v in [true, false] {
+                    for fail_x in [false, true] {
+                        for k in [None, Some(2)] {
+                            let mut steps = vec![mk("v", false, vec![])];
+                            for i in 0..pooled {
+                                let ins = if i == validated { vec![(EdgeKind::Validation, "v".to_string())] } else { vec![] };
+                                steps.push(mk(&format!("p{}", i), true, ins));
+                            }
+                            // something downstream of the validated step
+                            steps.push(mk("after", false, vec![(EdgeKind::Explicit, format!("p{}", validated))]));
+                            let p = Project {
+                                pools: vec![("bounded".into(), depth)],
+                                steps,
+                                ..Default::default()
+                            };
+                            let mut s = Scenario::new(p);
+                            s.j = depth + 2;
+                            s.k = k;
+                            if fail_v {
+                                s.outcomes.insert("V".into(), Outcome::Fail);
+                            }
+                            if fail_x {
+                                s.outcomes.insert(format!("P{}", validated), Outcome::Fail);
+                            }
+                            s.targets = vec!["after".into(), format!("p{}", pooled - 1), "p0".into(), "p1".into()];
+                            s.note = format!("PV depth={} pooled={} validated=p{} fail_v={} fail_x={} k={:?}", depth, pooled, validated, fail_v, fail_x, k);
                             out.push(s);
                         }
                     }
@@ -508,7 +566,10 @@ pub fn family_r() -> Vec<Scenario> {
     // base: cfg -> build.ninja generator; a -> b user chain; c independent;
     // `shared` decides how the generator's extra input relates to user steps.
     for shared in [0usize, 1, 2, 3, 4, 6] {
-        for manifest_name in ["build.ninja", "alt.ninja"] {
+        for (manifest_name, f_spelling) in [("build.ninja", None), ("alt.ninja", None), ("alt.ninja", Some("./alt.ninja")), ("alt.ninja", Some(".//alt.ninja"))] {
+            if f_spelling.is_some() && shared > 1 {
+                continue;
+            }
             let base = regen_project(manifest_name, shared, 0);
             for variant in 0..11usize {
                 for targets in [vec![], vec!["b".to_string()], vec!["c".to_string()], vec!["newt".to_string()], vec!["a".to_string(), manifest_name.to_string()], vec![manifest_name.to_string()]] {
@@ -551,7 +612,8 @@ pub fn family_r() -> Vec<Scenario> {
                             }
                             s.targets = targets.clone();
                             s.j = j;
-                            s.note = format!("R shared={} manifest={} variant={} targets={:?} touch_gen={} j={}", shared, manifest_name, variant, targets, touch, j);
+                            s.f_spelling = f_spelling.map(|x: &str| x.to_string());
+                            s.note = format!("R shared={} manifest={} (-f {:?}) variant={} targets={:?} touch_gen={} j={}", shared, manifest_name, f_spelling, variant, targets, touch, j);
                             out.push(s);
                         }
                     }
